@@ -74,6 +74,7 @@ void event(const char* point, const Fac& fac, Eigen::Index k)
     else if (!std::strcmp(point, "extend")) s.extend++;
     else if (!std::strcmp(point, "compress")) s.compress++;
     else if (!std::strcmp(point, "breakdown")) s.breakdown++;
+    else if (!std::strcmp(point, "handover")) {}   // raised by a harness when compute() has returned: the factorization as the Ritz extraction saw it
     else s.unresolved++;
     if (!s.cb) return;
     View v;
